@@ -5,6 +5,7 @@ package main
 // under test roll the environment back exactly as the real modules would.
 
 import (
+	math2 "math"
 	"context"
 	"encoding/json"
 	"errors"
@@ -510,14 +511,40 @@ func (s *StakingK) GetRedelegationsFromSrcValidator(ctx context.Context, valAddr
 	return out, nil
 }
 
+// SlashUnbondingDelegation / SlashRedelegation as x/staking computes the amount: every entry that
+// started at or after the infraction height and is not matured (or is on hold) counts with
+// slashFactor * InitialBalance, truncated.  Balances are not changed (the provider only calls them
+// in a throw-away cached context to learn the amount).
 func (s *StakingK) SlashUnbondingDelegation(ctx context.Context, ubd stakingtypes.UnbondingDelegation, infractionHeight int64, slashFactor math.LegacyDec) (math.Int, error) {
 	s.e.logEffect(ctx, fmt.Sprintf("slashubd val=%d frac=%s", s.e.pool.byOper[ubd.ValidatorAddress], slashFactor.String()))
-	return math.ZeroInt(), nil
+	now := sdk.UnwrapSDKContext(ctx).BlockTime()
+	total := math.ZeroInt()
+	for _, e := range ubd.Entries {
+		if e.CreationHeight < infractionHeight {
+			continue
+		}
+		if e.IsMature(now) && !e.OnHold() {
+			continue
+		}
+		total = total.Add(slashFactor.MulInt(e.InitialBalance).TruncateInt())
+	}
+	return total, nil
 }
 
 func (s *StakingK) SlashRedelegation(ctx context.Context, srcValidator stakingtypes.Validator, redelegation stakingtypes.Redelegation, infractionHeight int64, slashFactor math.LegacyDec) (math.Int, error) {
 	s.e.logEffect(ctx, fmt.Sprintf("slashred val=%d frac=%s", s.e.pool.byOper[redelegation.ValidatorSrcAddress], slashFactor.String()))
-	return math.ZeroInt(), nil
+	now := sdk.UnwrapSDKContext(ctx).BlockTime()
+	total := math.ZeroInt()
+	for _, e := range redelegation.Entries {
+		if e.CreationHeight < infractionHeight {
+			continue
+		}
+		if e.IsMature(now) && !e.OnHold() {
+			continue
+		}
+		total = total.Add(slashFactor.MulInt(e.InitialBalance).TruncateInt())
+	}
+	return total, nil
 }
 
 func (s *StakingK) StakingTokenSupply(ctx context.Context) (math.Int, error) {
@@ -616,9 +643,14 @@ func (s *SlashingK) JailUntil(ctx context.Context, addr sdk.ConsAddress, t time.
 	if !ok {
 		return errors.New("no signing info")
 	}
-	r.JailedUntil = t.UnixNano()
+	// nanoseconds since t0, saturating (a jail duration of MaxInt64 ns is beyond what UnixNano can hold)
+	rel := int64(math2.MaxInt64)
+	if d := t.Unix() - t0.Unix(); d < 9000000000 {
+		rel = t.UnixNano() - t0.UnixNano()
+	}
+	r.JailedUntil = rel + t0.UnixNano()*b2i(rel != math2.MaxInt64)
 	s.stk().setRec(ctx, r)
-	s.e.logEffect(ctx, fmt.Sprintf("jailuntil v=%d t=%d", id, t.UnixNano()-t0.UnixNano()))
+	s.e.logEffect(ctx, fmt.Sprintf("jailuntil v=%d t=%d", id, rel))
 	return nil
 }
 
